@@ -10,8 +10,19 @@ import LaunchpadModel.Generated.Constants
 * `mint`   = the whitelist branch of `is_public_mint` + the whitelist counter of `_execute_mint` in
   `vending-minter-merkle-wl(-featured)` / `open-edition-minter-merkle-wl`, for a minter whose public sale is closed.
 
-The whole `ExecuteMsg` surface of both whitelists is modelled (`POp`, `TOp`): `execute_update_merkle_tree` exists in
-both sources but is **not** dispatched by `execute`, so no operation writes `MERKLE_ROOT` / `MERKLE_ROOTS`.
+Two layers (round 3):
+
+* the **aspect model** the theorems and the compared (`primary`) outputs are about: `World`, `Op`, `step`, `run`.
+  It owns the committed roots, the notion of "active stage", the membership query and the whitelist gate of a mint.
+  Everything C14 is silent about — whether a configuration message is accepted and what windows / limits / admins it
+  leaves behind (C11/C12/C13), whether the non-Merkle gates of a mint (price, supply, per-address / allocation / stage
+  limits: C02/C03) accept — is a WITNESS taken from the implementation: `Op.wlMsg accepted post`, `Op.mint … res`.
+  The theorems quantify over all witnesses, i.e. they hold for every possible logic in those places.
+* the **prediction** of today's code for those places (`instantiatePlain/Tiered`, `POp`/`TOp`, `Plain.exec`,
+  `Tiered.exec`): run by the driver next to the aspect model, printed behind ` ## ` (DRIFT diagnostics only).
+  `execute_update_merkle_tree` exists in both sources but is **not** dispatched by `execute`; `POp.other`/`TOp.other`
+  stand for any message outside the `ExecuteMsg` enum (it does not parse ⇒ `none`).
+
 `none` = the call fails (error or index panic ⇒ the transaction is reverted).
 -/
 namespace LP.MerkleWl
@@ -62,6 +73,8 @@ inductive POp where
   | updateAdmins (sender : Nat) (admins : List Nat) (ok : Bool)
   | freeze (sender : Nat)
   | migrate
+  /-- any message that is not a variant of `ExecuteMsg` (e.g. `update_merkle_tree`): it does not parse -/
+  | other
 deriving Repr
 
 def Plain.exec (now : Nat) (s : Plain) : POp → Option Plain
@@ -83,6 +96,7 @@ def Plain.exec (now : Nat) (s : Plain) : POp → Option Plain
     if !(s.mutable_ && s.admins.contains sender) then none
     else some { s with mutable_ := false }
   | .migrate => some s
+  | .other => none
 
 def Plain.isActive (now : Nat) (s : Plain) : Bool := now ≥ s.start && now < s.end_
 
@@ -151,6 +165,8 @@ inductive TOp where
   | updateAdmins (sender : Nat) (admins : List Nat) (ok : Bool)
   | freeze (sender : Nat)
   | migrate
+  /-- any message that is not a variant of `ExecuteMsg` (e.g. `update_merkle_tree`): it does not parse -/
+  | other
 deriving Repr
 
 def Tiered.exec (s : Tiered) : TOp → Option Tiered
@@ -170,6 +186,7 @@ def Tiered.exec (s : Tiered) : TOp → Option Tiered
     if !(s.mutable_ && s.admins.contains sender) then none
     else some { s with mutable_ := false }
   | .migrate => some s
+  | .other => none
 
 /-- `query_has_member`: the active stage's root only; no active stage ⇒ error; a missing root ⇒ index panic -/
 def Tiered.hasMember (H : Bytes → Bytes) (s : Tiered) (now : Nat) (member : Bytes) (proof : List (List Nat)) :
@@ -181,38 +198,62 @@ def Tiered.hasMember (H : Bytes → Bytes) (s : Tiered) (now : Nat) (member : By
     | none => none
     | some r => Merkle.hasMember H 16 r member proof
 
-/-! ## one whitelist + the minter's whitelist gate -/
+/-! ## the part of instantiation C14 owns: the committed roots must be well-formed
+
+Everything else `instantiate` checks (fee, windows, genesis, URI, admin addresses) is witnessed (`res`): C11/C12/C13. -/
+
+def instPlainW (m : PlainInit) (res : Bool) : Option Plain :=
+  if !validHash 32 m.root then none          -- `verify_merkle_root`: decided here, whatever `res` says
+  else if res then some ⟨m.root, m.start, m.end_, m.pal, m.admins, m.adminsMutable⟩
+  else none
+
+def instTieredW (m : TieredInit) (res : Bool) : Option Tiered :=
+  if !m.roots.all (validHash 16) then none
+  else if res then some ⟨m.roots, m.stages, m.admins, m.adminsMutable⟩
+  else none
+
+/-! ## one whitelist + the minter's whitelist gate (the aspect model) -/
 
 inductive Wl where
   | plain (s : Plain)
   | tiered (s : Tiered)
-deriving Repr
+deriving Repr, DecidableEq
 
 def Wl.roots : Wl → List (List Nat)
   | .plain s => [s.root]
   | .tiered s => s.roots
 
+/-- keep the committed roots of the first argument, take everything else (windows, limits, admins) from `post`;
+a `post` of the other contract kind changes nothing -/
+def Wl.setCfg : Wl → Wl → Wl
+  | .plain s, .plain p => .plain { p with root := s.root }
+  | .tiered s, .tiered p => .tiered { p with roots := s.roots }
+  | wl, _ => wl
+
+/-- one accepted whitelist mint, as the minter saw it -/
+structure MintRec where
+  sender : Bytes
+  /-- 0 = `WHITELIST_MINTER_ADDRS` (plain whitelist), `i+1` = stage `i` of a tiered whitelist -/
+  key : Nat
+  stage : Option Nat
+  alloc : Option Nat
+  now : Nat
+deriving Repr, DecidableEq
+
 structure World where
   wl : Wl
-  /-- whitelist mint counters of the minter: `((sender, stage key), count)`; key 0 = `WHITELIST_MINTER_ADDRS`,
-  1..3 = `WHITELIST_{FS,SS,TS}_MINTER_ADDRS` -/
-  counts : List ((Bytes × Nat) × Nat)
-deriving Repr
-
-def getCount (cs : List ((Bytes × Nat) × Nat)) (k : Bytes × Nat) : Nat :=
-  match cs.find? (fun e => e.1 == k) with
-  | some e => e.2
-  | none => 0
-
-def setCount (cs : List ((Bytes × Nat) × Nat)) (k : Bytes × Nat) (v : Nat) : List ((Bytes × Nat) × Nat) :=
-  (k, v) :: cs.filter (fun e => e.1 != k)
+  /-- ghost log of the accepted whitelist mints of the bound minter, newest first -/
+  minted : List MintRec
+deriving Repr, DecidableEq
 
 inductive Op where
-  | plain (o : POp)
-  | tiered (o : TOp)
+  /-- ANY message sent to the whitelist contract — a known `ExecuteMsg` variant, one this model has never heard of,
+  `migrate` — by anybody, with any arguments. `accepted` and the configuration `post` it left behind are witnesses;
+  the roots of `post` are ignored: the model has no way to write a root. -/
+  | wlMsg (accepted : Bool) (post : Wl)
   /-- `ExecuteMsg::Mint { stage, proof_hashes, allocation }` sent by `sender` to a Merkle minter bound to this
-  whitelist, with the exact whitelist price attached, tokens left, no stage `mint_count_limit`, public sale closed -/
-  | mint (sender : Bytes) (stage alloc : Option Nat) (proof : Option (List (List Nat)))
+  whitelist while its public sale is closed. `res` = the implementation's verdict (a witness, see `mint`). -/
+  | mint (sender : Bytes) (stage alloc : Option Nat) (proof : Option (List (List Nat))) (res : Bool)
 deriving Repr
 
 /-- `(stage key, per-address limit)` of the active whitelist window, `none` if the whitelist is not active -/
@@ -228,38 +269,60 @@ def Wl.hasMember (H : Bytes → Bytes) (now : Nat) (wl : Wl) (member : Bytes) (p
   | .plain s => s.hasMember H member proof
   | .tiered s => s.hasMember H now member proof
 
-/-- The whitelist gate of `execute_mint_sender`. The member string is `leafStr stage sender alloc`: the sender is the
-transaction's sender, never an argument. -/
+/-- **The whitelist gate** of `execute_mint_sender` / `is_public_mint`: the whitelist is active, proof hashes were
+supplied, and the member string `leafStr stage sender alloc` — the sender is the transaction's sender, never an
+argument — verifies against the root in force. -/
+def gate (H : Bytes → Bytes) (now : Nat) (wl : Wl) (sender : Bytes) (stage alloc : Option Nat)
+    (proof : Option (List (List Nat))) : Bool :=
+  match wl.active now, proof with
+  | some _, some pf => wl.hasMember H now (leafStr stage sender alloc) pf == some true
+  | _, _ => false             -- inactive ⇒ public mint (closed); no proof ⇒ `HasMember` without proof does not parse
+
+def hasMinted (l : List MintRec) (sender : Bytes) (key : Nat) : Bool :=
+  l.any fun r => r.sender == sender && r.key == key
+
+/-- A mint through the whitelist branch.
+* gate closed ⇒ rejected, whatever `res` says (soundness at the minter: decided by the model);
+* gate open and this `(sender, stage key)` has never minted and the authenticated allowance (`allocation`, else the
+  window's per-address limit) is at least 1 ⇒ accepted, whatever `res` says (completeness at the minter: decided by
+  the model — the harness attaches the price the minter itself quotes and keeps supply available);
+* gate open otherwise ⇒ `res`: how many further mints the limits allow is C03's subject. -/
 def mint (H : Bytes → Bytes) (now : Nat) (w : World) (sender : Bytes) (stage alloc : Option Nat)
-    (proof : Option (List (List Nat))) : Option World :=
+    (proof : Option (List (List Nat))) (res : Bool) : Option World :=
   match w.wl.active now with
-  | none => none                       -- public mint; closed in the modelled scenario
+  | none => none
   | some (key, pal) =>
-    match proof with
-    | none => none                     -- `MissingProofHashes` / un-parseable plain `HasMember` query
-    | some pf =>
-      match w.wl.hasMember H now (leafStr stage sender alloc) pf with
-      | some true =>
-        let c := getCount w.counts (sender, key)
-        if c ≥ alloc.getD pal then none  -- `MaxPerAddressLimitExceeded`
-        else some { w with counts := setCount w.counts (sender, key) (c + 1) }
-      | _ => none                      -- `NotWhitelisted` or the query failed
+    if !gate H now w.wl sender stage alloc proof then none
+    else if (!hasMinted w.minted sender key && decide (1 ≤ alloc.getD pal)) || res then
+      some { w with minted := ⟨sender, key, stage, alloc, now⟩ :: w.minted }
+    else none
 
 def step (H : Bytes → Bytes) (now : Nat) (w : World) : Op → Option World
-  | .plain o =>
-    match w.wl with
-    | .plain s => (s.exec now o).map fun s' => { w with wl := .plain s' }
-    | .tiered _ => none
-  | .tiered o =>
-    match w.wl with
-    | .tiered s => (s.exec o).map fun s' => { w with wl := .tiered s' }
-    | .plain _ => none
-  | .mint sender stage alloc proof => mint H now w sender stage alloc proof
+  | .wlMsg accepted post => if accepted then some { w with wl := w.wl.setCfg post } else none
+  | .mint sender stage alloc proof res => mint H now w sender stage alloc proof res
 
 /-- transactional step: a failed call leaves the state unchanged -/
 def step' (H : Bytes → Bytes) (w : World) (top : Nat × Op) : World := (step H top.1 w top.2).getD w
 
 /-- a history: every operation with the block time it executes at -/
 def run (H : Bytes → Bytes) (w : World) (ops : List (Nat × Op)) : World := ops.foldl (step' H) w
+
+/-- number of accepted whitelist mints of `sender` (all windows) -/
+def mintedBy (w : World) (sender : Bytes) : Nat := (w.minted.filter fun r => r.sender == sender).length
+
+/-! ## prediction of today's configuration messages (DRIFT diagnostics; `C14_predicted_*` show it writes no root either) -/
+
+inductive WlOp where
+  | plain (o : POp)
+  | tiered (o : TOp)
+deriving Repr
+
+def predict (now : Nat) (wl : Wl) : WlOp → Option Wl
+  | .plain o => match wl with
+    | .plain s => (s.exec now o).map Wl.plain
+    | .tiered _ => none
+  | .tiered o => match wl with
+    | .tiered s => (s.exec o).map Wl.tiered
+    | .plain _ => none
 
 end LP.MerkleWl
